@@ -6,10 +6,10 @@ from .. import scenario
 
 ID = "C04"
 LEVEL = "exploration"
-RULE = ("four case families: (0) SIZE boundaries of the file format - string literals of 250 ... 70 000 bytes around every power of two, functions capturing up to 300 variables, files with up to 1 200 functions, names of 1 000 characters, jumps over 12 000 statements, literals with 1 000 elements, 250 parameters - each with a computed expected output; (1) every .ms file of the repository's example corpus as entry point of a copy of its directory; "
+RULE = ("five case families: (0) SIZE boundaries of the file format - string literals of 250 ... 70 000 bytes around every power of two, functions capturing up to 300 variables, files with up to 1 200 functions, names of 1 000 characters, class and method names (function labels) of up to 300 characters, jumps over 12 000 statements, literals with 1 000 elements, 250 parameters - each with a computed expected output; (0b) REPEATED LABELS - same-named classes in two function bodies, in the if and the else block, at module level and inside a function, same-named inner functions and methods, with the first, the second or both in use (differential only); (1) every .ms file of the repository's example corpus as entry point of a copy of its directory; "
         "(2) programs from the generators of C01, C07, C08, C12, C13, C15 and the two-module failing programs of C17 "
         "(Hypothesis); (3) EXHAUSTIVELY all string literals up to length 3 (quick: + a seeded sample of length 4; thorough: all "
-        "of length 4) over the alphabet {quote, backslash, space, TAB, LF, CR, n, r, t, a, e-acute, emoji, NBSP, U+3000, VT} in escaped and raw "
+        "of length 4) over the alphabet {quote, backslash, space, TAB, LF, CR, n, r, t, a, e-acute, emoji, NBSP, U+3000, VT, NUL} in escaped and raw "
         "source spelling, each placed as print operand, concatenation operand and map key, 150 per program. Oracle: stdout and "
         "exit class of `mscript run x.ms -q` equal those of `mscript compile x.ms --quick && mscript execute x.mmm`; for the "
         "string programs both must also equal the bytes the harness computes from the decoded strings. Non-trivial = the "
@@ -21,7 +21,7 @@ EXHAUSTIVE = {"quick": False, "thorough": True}
 
 # format-special characters: quote, backslash, the ASCII whitespace the reader splits on, the letters of the escapes, a
 # plain letter, non-ASCII text, and UNICODE whitespace (the reader tokenizes with char::is_whitespace, not with ' ')
-SIGMA = ["\"", "\\", " ", "\t", "\n", "\r", "n", "r", "t", "a", "é", "😀", "\u00a0", "\u3000", "\u000b"]
+SIGMA = ["\"", "\\", " ", "\t", "\n", "\r", "n", "r", "t", "a", "é", "😀", "\u00a0", "\u3000", "\u000b", "\u0000"]
 ESC = {"\"": "\\\"", "\\": "\\\\", "\n": "\\n", "\r": "\\r", "\t": "\\t"}
 RAW = {"\"": "\\\"", "\\": "\\\\"}
 CORPUS = os.path.join(os.environ.get("VERIF_REPO", "/repo"), "examples")
@@ -137,7 +137,7 @@ def check(case):
     sc = make_scenario(files, entry, expect=case.get("expect"), loose=(fam == "corpus"))
     res, fails, _ = scenario.execute(sc)
     text = "".join(v for v in files.values() if isinstance(v, str))
-    nt = special(text) or len([f for f in files if f.endswith(".ms")]) > 1
+    nt = special(text) or len([f for f in files if f.endswith(".ms")]) > 1 or fam == "labels"
     labels = ["family=" + fam]
     if res["run"].klass == "timeout":
         labels.append("skipped:run-timeout")
@@ -217,6 +217,12 @@ def size_cases():
     for n in (60, 200, 1000):
         nm = "v" + "x" * n
         add("name-%d" % n, "%s = 5\n%s_f = fn() -> int {\n\treturn %s + 1\n}\nprint %s_f()\n" % (nm, nm, nm, nm), "6\n")
+    for cn, mn in ((10, 5), (27, 5), (10, 29), (10, 45), (41, 5), (64, 64), (100, 300), (300, 100)):
+        # the labels of class code are built from user-chosen names: `Class`, `Class::$constructor`, `Class::method`
+        cname, mname = "K" + "c" * (cn - 1), "m" + "x" * (mn - 1)
+        src = ("class %s {\n\tv: int\n\tconstructor(self, v: int) {\n\t\tself.v = v\n\t}\n\tfn %s(self, d: int) -> int {\n\t\treturn self.v + d\n\t}\n"
+               "\tfn unused_%s(self) -> int {\n\t\treturn 0\n\t}\n}\no = %s(4)\nprint o.%s(3)\n") % (cname, mname, mname, cname, mname)
+        add("class-name-%d-method-name-%d" % (cn, mn), src, "7\n")
     for n in (40, 130, 300, 3000, 12000):
         # an if body / a loop body of n statements: jump offsets beyond 127, 255, 32767
         body = "\tt = t + 1\n" * n
@@ -231,8 +237,54 @@ def size_cases():
     return out
 
 
+def label_cases():
+    """programs whose bytecode contains function blocks with nearly the same label: classes declared in different scopes of
+    one module (function bodies, if / else blocks, loop bodies - the compiler rejects two classes with ONE name, so the names
+    differ in case, by a digit or by an underscore), classes with same-named methods, inner functions with the same name,
+    classes named like variables of other scopes.  Every function is called twice (a class declaration that is reached
+    again must create the class again).  Expected output computed."""
+    out = []
+
+    def klass(name, tag, indent):
+        t = "\t" * indent
+        return ("%sclass %s {\n%s\tsize: int\n%s\tconstructor(self, size: int) {\n%s\t\tself.size = size\n%s\t}\n"
+                "%s\tfn describe(self) -> str {\n%s\t\treturn \"%s \" + self.size\n%s\t}\n%s}\n") % (t, name, t, t, t, t, t, t, tag, t, t)
+
+    def add(name, src, exp):
+        out.append({"family": "labels", "origin": "labels:" + name, "files": {"main.ms": src + "print \"@end\"\n"}, "expect": exp + "@end\n"})
+    for a, b in (("Shape", "shape"), ("Shape", "Shape2"), ("Shape", "Shape_"), ("S", "T")):
+        for use in ("first", "second", "both", "both-reversed"):
+            calls, exp = {"first": ("print one(4)\nprint one(6)\n", "circle 4\ncircle 6\n"), "second": ("print two(4)\nprint two(6)\n", "square 4\nsquare 6\n"),
+                          "both": ("print one(4)\nprint two(5)\nprint one(6)\n", "circle 4\nsquare 5\ncircle 6\n"),
+                          "both-reversed": ("print two(5)\nprint one(4)\nprint two(7)\n", "square 5\ncircle 4\nsquare 7\n")}[use]
+            src = ("one = fn(r: int) -> str {\n" + klass(a, "circle", 1) + "\ts = %s(r)\n\treturn s.describe()\n}\n" % a +
+                   "two = fn(w: int) -> str {\n" + klass(b, "square", 1) + "\ts = %s(w)\n\treturn s.describe()\n}\n" % b + calls)
+            add("class-in-two-functions:%s/%s:%s" % (a, b, use), src, exp)
+            src = (klass(a, "circle", 0) + "one = fn(r: int) -> str {\n\ts = %s(r)\n\treturn s.describe()\n}\n" % a +
+                   "two = fn(w: int) -> str {\n" + klass(b, "square", 1) + "\ts = %s(w)\n\treturn s.describe()\n}\n" % b + calls)
+            add("class-in-module-and-function:%s/%s:%s" % (a, b, use), src, exp)
+    for use in ("first", "second", "both", "both-reversed"):
+        calls, exp = {"first": ("print one(4)\n", "circle 4\n"), "second": ("print two(4)\n", "square 4\n"), "both": ("print one(4)\nprint two(5)\n", "circle 4\nsquare 5\n"),
+                      "both-reversed": ("print two(5)\nprint one(4)\n", "square 5\ncircle 4\n")}[use]
+        src = ("one = fn(r: int) -> str {\n\thelper = fn(n: int) -> str {\n\t\treturn \"circle \" + n\n\t}\n\treturn helper(r)\n}\n"
+               "two = fn(w: int) -> str {\n\thelper = fn(n: int) -> str {\n\t\treturn \"square \" + n\n\t}\n\treturn helper(w)\n}\n" + calls)
+        add("inner-functions:" + use, src, exp)
+    for flag in ("true", "false"):
+        src = ("flag = %s\nif flag {\n" % flag + klass("Shape", "circle", 1) + "\ts = Shape(4)\n\tprint s.describe()\n} else {\n" +
+               klass("Shape2", "square", 1) + "\ts = Shape2(5)\n\tprint s.describe()\n}\n")
+        add("class-in-if-and-else:" + flag, src, "circle 4\n" if flag == "true" else "square 5\n")
+        src = ("flag = %s\nn = 0\nwhile n < 2 {\n\tn = n + 1\n\tif flag {\n" % flag + klass("Shape", "circle", 2) + "\t\ts = Shape(n)\n\t\tprint s.describe()\n\t} else {\n" +
+               klass("Shape2", "square", 2) + "\t\ts = Shape2(n)\n\t\tprint s.describe()\n\t}\n}\n")
+        add("class-in-if-and-else-in-loop:" + flag, src, "circle 1\ncircle 2\n" if flag == "true" else "square 1\nsquare 2\n")
+    # different classes with same-named methods; a module-level function named like the methods; a local named like a class of another scope
+    src = (klass("A", "a", 0) + klass("B", "b", 0) + "describe = fn() -> str {\n\treturn \"free\"\n}\nx = A(1)\ny = B(2)\nprint x.describe()\nprint y.describe()\nprint describe()\n"
+           "user = fn() -> int {\n\tB = 5\n\treturn B + 1\n}\nprint user()\nz = B(3)\nprint z.describe()\n")
+    add("same-named-methods", src, "a 1\nb 2\nfree\n6\nb 3\n")
+    return out
+
+
 def enumerated(tier, seed):
-    return corpus_cases() + size_cases() + string_cases(tier, seed)
+    return corpus_cases() + size_cases() + label_cases() + string_cases(tier, seed)
 
 
 def strategy(tier):
